@@ -117,6 +117,20 @@ def roles(ctx, info) -> dict:
                     text = norm(inline_locals(ctx, m, mcfg, at, x))
             if text == want:
                 out["slot_read"] = m
+    if out.get("slot_read") is None and out.get("impl") is not None:
+        # ... or a private module-level function that is handed (instance, name) and reads ``instance.__dict__[name]``
+        for c in own_nodes(out["impl"].node):
+            if not (isinstance(c, ast.Call) and isinstance(c.func, ast.Name) and len(c.args) == 2 and not c.keywords
+                    and [norm(a) for a in c.args] == [f"self.{F['instance']}", f"self.{F['name']}"]):
+                continue
+            r = ctx.pkg.resolve_expr_global(info.module, c.func)
+            t = ctx.pkg.lib_unit(r.qual) if r.kind == "lib" else None
+            if t is None or t.kind != "sync" or len(t.param_names()) != 2:
+                continue
+            a0, a1 = t.param_names()
+            if any(isinstance(x, ast.Subscript) and isinstance(x.ctx, ast.Load) and norm(x) == f"{a0}.__dict__[{a1}]" for x in own_nodes(t.node)):
+                out["slot_read"] = t
+                out["slot_is_function"] = True
     if out.get("impl") is None or out.get("slot_read") is None:
         raise AnalysisError(f"{PLACEHOLDER}: cannot identify the await implementation / the slot read (anchor moved)")
     out["slot_name"] = out["slot_read"].qualname.rsplit(".", 1)[-1]
@@ -124,7 +138,13 @@ def roles(ctx, info) -> dict:
     return out
 
 
-_SLOT = {"name": "_instance_value"}
+_SLOT = {"name": "_instance_value", "function": False}
+
+
+def _reads_slot(text: str) -> bool:
+    """the expression text reads the slot through the derived accessor (a property / method of the placeholder, or a
+    module-level function handed the instance and the name)"""
+    return (f"{_SLOT['name']}(" in text) if _SLOT.get("function") else (f".{_SLOT['name']}" in text)
 
 
 def _is_slot_test(n: Node, cfg=None) -> bool:
@@ -139,13 +159,13 @@ def _is_slot_test(n: Node, cfg=None) -> bool:
     if not has_self or len(other) != 1:
         return False
     text = norm(other[0])
-    if f".{_SLOT['name']}" in text or "__dict__" in text:
+    if _reads_slot(text) or "__dict__" in text:
         return True
     if isinstance(other[0], ast.Name) and cfg is not None:
         from asl.flow import reaching
         defs = reaching(cfg).defs_at(n, other[0].id)
         vals = [norm(d.info.get("value")) for d in defs if d.kind == "store"]
-        return bool(vals) and all(f".{_SLOT['name']}" in v or "__dict__" in v for v in vals)
+        return bool(vals) and all(_reads_slot(v) or "__dict__" in v for v in vals)
     return False
 
 
@@ -159,6 +179,7 @@ def _impl_view(ctx, info):
     may or may not sit in a helper of its own)."""
     R = roles(ctx, info)
     _SLOT["name"] = R["slot_name"]
+    _SLOT["function"] = bool(R.get("slot_is_function"))
     return ctx.inlined(R["impl"], keep=(R["slot_name"],))
 
 
@@ -216,7 +237,7 @@ def r12_1(ctx, info) -> None:
         from asl.flow import reaching
         defs = reaching(cfg).defs_at(n, name)
         vals = {norm(d.info.get("value")) for d in defs if d.kind == "store"}
-        ctx.check(bool(vals) and all(f".{_SLOT['name']}" in v for v in vals), "R12.1", u, n,
+        ctx.check(bool(vals) and all(_reads_slot(v) for v in vals), "R12.1", u, n,
                   "the awaited object is the one read from the instance slot", node=n, witness=str(sorted(vals)))
 
 
@@ -362,13 +383,15 @@ def r12_5(ctx, info) -> None:
     handlers = [n for n in cfg.nodes if n.kind == "handler" and "KeyError" in norm(n.info.get("type"))]
     ctx.check(bool(handlers), "R12.5", u, "_instance_value", "a deleted slot is detected (KeyError on the instance dict)")
     F = placeholder_fields(info)
-    reads = [n for n in cfg.nodes if n.kind == "sub" and norm(n.ast) == f"self.{F['instance']}.__dict__[self.{F['name']}]"]
+    # (the accessor is a method of the placeholder, or a module-level function handed the instance and the name)
+    inst, name = (f"self.{F['instance']}", f"self.{F['name']}") if not roles(ctx, info).get("slot_is_function") else tuple(u.param_names())
+    reads = [n for n in cfg.nodes if n.kind == "sub" and norm(n.ast) == f"{inst}.__dict__[{name}]"]
     ctx.check(bool(reads), "R12.5", u, "_instance_value", "the slot is read from instance.__dict__[name]")
     for h in handlers:
         body = reachable([h], edge_ok=lambda a, lab, b: lab not in ("e", "p"))
         rets = [n for n in body if n.kind == "return"]
         ok = rets and all(isinstance(r.info.get("value"), ast.Call) and norm(r.info["value"].func) == "getattr"
-                          and [norm(a) for a in r.info["value"].args] == [f"self.{F['instance']}", f"self.{F['name']}"] for r in rets)
+                          and [norm(a) for a in r.info["value"].args] == [inst, name] for r in rets)
         ctx.check(bool(ok), "R12.5", u, rets[0] if rets else h,
                   "after deletion the access restarts through the descriptor: getattr(instance, name)", node=h)
 
